@@ -195,7 +195,7 @@ def exc_family(e: BaseException) -> str:
 
 def execute(world: World, op: dict) -> dict:
     """Execute one operation. Returns the outcome dict."""
-    from .ops import OPS  # noqa: PLC0415
+    from .allops import OPS  # noqa: PLC0415
 
     spec = OPS.get(op["op"])
     if spec is None:
